@@ -44,8 +44,8 @@ const (
 )
 
 var (
-	vwKey = ch.ChannelKey("1:w")
-	vwID  = ch.ChannelID{ID: "w", Type: 1}
+	vwBaseKey = ch.ChannelKey("1:w")
+	vwBaseID  = ch.ChannelID{ID: "w", Type: 1}
 
 	errVwUnreachable = errors.New("verif: peer unreachable")
 	errVwDropped     = errors.New("verif: request dropped")
@@ -82,6 +82,10 @@ type vwOpts struct {
 	// otherwise the path silently ends there (counted), so that the consequences of the
 	// known C01 defect are not reported again under another property.
 	reportKF bool
+	// backend, when set, supplies the three nodes' channel-store factories and a fresh
+	// channel identity per instance (MessageDB-backed worlds); nil = one private
+	// channelstore.MemoryFactory per node and the fixed channel "1:w".
+	backend func() *vwBackendLease
 	// noPrune (experiments only, VERIF_DEBUG_NOPRUNE=1): keep exploring past a KF-C01-1
 	// transition to see which other oracle its consequences reach.
 	noPrune bool
@@ -100,6 +104,14 @@ type vwStats struct {
 	crashAtReplace, crossNodeDeposedAck, retryRefusedHigherAuthority  atomic.Int64
 	committedPairsCompared, chainEntriesVerified                      atomic.Int64
 	commitBackpressured, commitUnavailable, conflictGarbageRow       atomic.Int64
+}
+
+// vwBackendLease is an exclusive lease of three durable stores for one instance.
+type vwBackendLease struct {
+	factories [vwN]channelstore.Factory
+	key       ch.ChannelKey
+	id        ch.ChannelID
+	release   func()
 }
 
 type vwLog struct {
@@ -136,7 +148,7 @@ type vwControlPlane struct {
 
 type vwNode struct {
 	id      ch.NodeID
-	factory *channelstore.MemoryFactory
+	factory channelstore.Factory
 	store   ReplicaStore
 	server  *ExchangeServer
 	log     *quorumLog
@@ -168,6 +180,9 @@ type vwEventObs struct {
 type vw struct {
 	o     vwOpts
 	st    *vwStats
+	key   ch.ChannelKey
+	id    ch.ChannelID
+	lease *vwBackendLease
 	nodes []*vwNode
 	env   *mc.Env
 	cp    vwControlPlane
@@ -186,9 +201,18 @@ type vw struct {
 }
 
 func newVW(o vwOpts, st *vwStats) *vw {
-	w := &vw{o: o, st: st, ackOf: map[int]int{}, proposed: map[int]byte{}}
+	w := &vw{o: o, st: st, key: vwBaseKey, id: vwBaseID, ackOf: map[int]int{}, proposed: map[int]byte{}}
+	if o.backend != nil {
+		w.lease = o.backend()
+		w.key, w.id = w.lease.key, w.lease.id
+	}
 	for i := 1; i <= vwN; i++ {
-		n := &vwNode{id: ch.NodeID(i), factory: channelstore.NewMemoryFactory(), repairs: map[ch.NodeID]followerRepair{}}
+		n := &vwNode{id: ch.NodeID(i), repairs: map[ch.NodeID]followerRepair{}}
+		if w.lease != nil {
+			n.factory = w.lease.factories[i-1]
+		} else {
+			n.factory = channelstore.NewMemoryFactory()
+		}
 		store, err := NewStoreAdapter(StoreAdapterConfig{Factory: n.factory, MaxBatchItems: 4, MaxBatchBytes: 1 << 20})
 		if err != nil {
 			panic(err)
@@ -219,6 +243,14 @@ func newVW(o vwOpts, st *vwStats) *vw {
 }
 
 func (w *vw) node(id ch.NodeID) *vwNode { return w.nodes[int(id)-1] }
+
+// Close returns leased stores (mc.Closer).
+func (w *vw) Close() {
+	if w.lease != nil && w.lease.release != nil {
+		w.lease.release()
+		w.lease = nil
+	}
+}
 
 func (w *vw) freshLog(n *vwNode) {
 	log, err := newQuorumLog(quorumLogConfig{
@@ -256,7 +288,7 @@ func (w *vw) choose(label string, n int) int {
 
 func (w *vw) authorityFor(leader ch.NodeID, fenced bool) Authority {
 	a := Authority{
-		Key: vwKey, ChannelID: vwID,
+		Key: w.key, ChannelID: w.id,
 		ID:     AuthorityID{ChannelEpoch: w.cp.epoch, LeaderTerm: w.cp.term, FenceVersion: w.cp.fence},
 		Leader: leader, Voters: []ch.NodeID{1, 2, 3}, WriteQuorum: vwQ,
 	}
@@ -592,10 +624,11 @@ func (d *vwDisp) RecordFollowerRepair(repair followerRepair) {
 // ------------------------------------------------------------------ reading state back
 
 func (w *vw) readStore(n *vwNode) vwLog {
-	cs, err := n.factory.ChannelStore(vwKey, vwID)
+	cs, err := n.factory.ChannelStore(w.key, w.id)
 	if err != nil {
 		return vwLog{err: err}
 	}
+	defer cs.Close()
 	loader := cs.(channelstore.ExactRecoveryStateLoader)
 	st, err := loader.LoadExactRecoveryState(context.Background(), nil)
 	if err != nil {
@@ -636,7 +669,7 @@ func (w *vw) snapshot() []vwLog {
 }
 
 func (w *vw) chanState(n *vwNode) *quorumChannel {
-	return n.log.existingChannel(vwKey)
+	return n.log.existingChannel(w.key)
 }
 
 // ready reports the real quorumLog's writable flag for the channel.
@@ -1023,7 +1056,7 @@ func (w *vw) applyInstall(n *vwNode, kind string, before []vwLog) (string, error
 			id.LeaderTerm += 5
 			id.FenceVersion += 5
 		}
-		a = Authority{Key: vwKey, ChannelID: vwID, ID: id, Leader: n.id, Voters: []ch.NodeID{1, 2, 3}, WriteQuorum: vwQ}
+		a = Authority{Key: w.key, ChannelID: w.id, ID: id, Leader: n.id, Voters: []ch.NodeID{1, 2, 3}, WriteQuorum: vwQ}
 	default:
 		panic("verif: unknown install kind " + kind)
 	}
@@ -1249,7 +1282,7 @@ func (w *vw) applyCommit(n *vwNode, k int, kind string, before []vwLog) (string,
 		_, inRetained = st.retained[cmdID(k)]
 	}
 	wasWritable := n.writable && !n.fenced
-	receipt, err := n.log.Commit(context.Background(), Proposal{Key: vwKey, Expected: expected, CommandID: cmdID(k), Records: records})
+	receipt, err := n.log.Commit(context.Background(), Proposal{Key: w.key, Expected: expected, CommandID: cmdID(k), Records: records})
 	after := w.snapshot()
 	obs := kind + ":" + errName(err)
 	if err == nil {
@@ -1654,11 +1687,12 @@ func (w *vw) Check() error {
 
 // storedVariant reads the content variant byte of the row stored at seq on node n.
 func (w *vw) storedVariant(n *vwNode, seq uint64) (byte, bool) {
-	cs, err := n.factory.ChannelStore(vwKey, vwID)
+	cs, err := n.factory.ChannelStore(w.key, w.id)
 	if err != nil {
 		return 0, false
 	}
-	read, err := cs.ReadLog(context.Background(), channelstore.ReadLogRequest{FromOffset: seq, MaxOffset: seq})
+	defer cs.Close()
+	read, err := cs.ReadLog(context.Background(), channelstore.ReadLogRequest{FromOffset: seq, MaxOffset: seq, MaxBytes: 1 << 20})
 	if err != nil || len(read.Records) != 1 || len(read.Records[0].Payload) == 0 {
 		return 0, false
 	}
@@ -1670,18 +1704,23 @@ func (w *vw) verifyDigests(n *vwNode, l vwLog) error {
 	if l.leo == 0 {
 		return nil
 	}
-	cs, err := n.factory.ChannelStore(vwKey, vwID)
+	cs, err := n.factory.ChannelStore(w.key, w.id)
 	if err != nil {
 		return nil
 	}
-	read, err := cs.ReadLog(context.Background(), channelstore.ReadLogRequest{FromOffset: 1, MaxOffset: l.leo})
+	defer cs.Close()
+	read, err := cs.ReadLog(context.Background(), channelstore.ReadLogRequest{FromOffset: 1, MaxOffset: l.leo, MaxBytes: 1 << 20})
 	if err != nil || uint64(len(read.Records)) != l.leo {
 		return mc.Violatef("C02:log-rows-missing", "node %d: %d rows readable below LEO %d (%v)", n.id, len(read.Records), l.leo, err)
 	}
 	for i, rec := range read.Records {
 		w.st.chainEntriesVerified.Add(1)
+		epoch := rec.Epoch
+		if epoch == 0 { // a store that does not persist the row's epoch separately from its identity
+			epoch = l.ids[i].ChannelEpoch
+		}
 		if !quorumlog.VerifyEntry(l.ids[i], quorumlog.Record{
-			ID: rec.ID, Index: rec.Index, Epoch: rec.Epoch, Setting: rec.Setting, FromUID: rec.FromUID, ClientMsgNo: rec.ClientMsgNo,
+			ID: rec.ID, Index: rec.Index, Epoch: epoch, Setting: rec.Setting, FromUID: rec.FromUID, ClientMsgNo: rec.ClientMsgNo,
 			ServerTimestampMS: rec.ServerTimestampMS, SyncOnce: rec.SyncOnce, Payload: rec.Payload}) {
 			return mc.Violatef("C02:entry-digest-does-not-match-content", "node %d: the stored row at offset %d does not hash to its entry identity", n.id, i+1)
 		}
